@@ -2,7 +2,7 @@
    Hand-written, independent of /repo.  The generated file gen/Settings.v instantiates the
    section variables with the functions translated from linear_operator/settings.py and
    Laws.v discharges the hypotheses for the generated code. *)
-From Coq Require Import List Arith Bool ZArith Lia.
+From Coq Require Import List Arith Bool ZArith Lia Permutation.
 Import ListNotations.
 
 (* values stored in settings slots and context-object fields *)
@@ -34,6 +34,15 @@ Definition spec_enter (k : kind) (args : list val) (sv : slotvec) : option slotv
                (if is_none d then s_dv sv else d)
                (if is_none h then s_hv sv else h))
   | _, _ => None
+  end.
+
+(* what the observers of a class (on/off | value | value(float/double/half)) must report for given slots;
+   d = what on() reports while the flag is unset (its default) *)
+Definition spec_observe (k : kind) (d : val) (sv : slotvec) : list (option val) :=
+  match k with
+  | KFlag => let on := if is_none (s_state sv) then d else s_state sv in [Some on; Some (vnot on)]
+  | KValue => [Some (s_gv sv)]
+  | KDtype => [Some (s_fv sv); Some (s_dv sv); Some (s_hv sv)]
   end.
 
 Section Generic.
@@ -125,6 +134,39 @@ Proof.
     assert (Hnotin2 : ~ In c (map fst r2)) by (rewrite (walk_classes _ _ _ _ _ E); exact Hnotin).
     rewrite (walk_set_comm _ _ _ _ _ c (get c g) Hnotin2 IH).
     rewrite set_set, set_get. reflexivity.
+Qed.
+
+(* The parts of a composite belong to pairwise different classes, so the ORDER in which a composite enters or
+   exits them is irrelevant: walking any permutation of the parts gives the same store and the same (permuted)
+   objects.  This is why the model may exit the parts in the order in which they were entered whatever order
+   the source uses (fast_computations / linalg_dtypes exit first-entered-first; LIFO would do as well). *)
+Lemma walk_perm f ps ps' : Permutation ps ps' -> NoDup (map fst ps) ->
+  forall g g1 r, walk f ps g = Some (g1, r) ->
+  exists r', walk f ps' g = Some (g1, r') /\ Permutation r r'.
+Proof.
+  induction 1 as [|[c o] l l' Hp IH|[c2 o2] [c1 o1] l|l l' l'' H1 IH1 H2 IH2]; intros Hnd g g1 r Hw.
+  - exists r. split; [exact Hw|apply Permutation_refl].
+  - simpl in Hw |- *. inversion Hnd as [|? ? Hn Hnd']; subst.
+    destruct (f c (get c g) o) as [[sv1 o1]|]; [|discriminate].
+    destruct (walk f l (set c sv1 g)) as [[g2 r2]|] eqn:E; [|discriminate].
+    inversion Hw; subst.
+    destruct (IH Hnd' _ _ _ E) as [r' [Hr' Hp']]. rewrite Hr'.
+    eexists; split; [reflexivity|]. apply perm_skip; exact Hp'.
+  - simpl in Hw |- *.
+    assert (Hc : c1 <> c2).
+    { simpl in Hnd. inversion Hnd as [|? ? Hn _]; subst. intros X. apply Hn. left. symmetry; exact X. }
+    destruct (f c1 (get c1 g) o1) as [[sa oa]|] eqn:Ea; [|discriminate].
+    rewrite (get_set_neq c1 c2 sa g Hc) in Hw.
+    destruct (f c2 (get c2 g) o2) as [[sb ob]|] eqn:Eb; [|discriminate].
+    rewrite (get_set_neq c2 c1 sb g (fun X => Hc (eq_sym X))). rewrite Ea.
+    rewrite (set_comm c1 c2 sa sb g Hc).
+    destruct (walk f l (set c2 sb (set c1 sa g))) as [[g2 r2]|]; [|discriminate].
+    inversion Hw; subst. eexists; split; [reflexivity|]. apply perm_swap.
+  - destruct (IH1 Hnd _ _ _ Hw) as [r1 [Hr1 Hp1]].
+    assert (Hnd' : NoDup (map fst l')).
+    { eapply Permutation_NoDup; [|exact Hnd]. apply Permutation_map; exact H1. }
+    destruct (IH2 Hnd' _ _ _ Hr1) as [r2 [Hr2 Hp2]].
+    exists r2. split; [exact Hr2|]. eapply Permutation_trans; eauto.
 Qed.
 
 (* ---- events and histories ---------------------------------------------------------- *)
